@@ -244,3 +244,61 @@ Proof.
     rewrite S, H, W. rewrite filter_all_false; [lia|].
     intros [rw e] Hin. destruct (Hst rw e Hin) as [Hr _]. cbn [fst]. lia.
 Qed.
+
+(* ---- prestep_fast is prestep: the model's row-jumping shortcut for edges above the surface computes exactly what
+   stepping row by row (the crate's loop) computes ---- *)
+Lemma step_noswitch e cury : e_shift e = 0 \/ cury < dot16_to_dot2 (e_nexty e) ->
+  step e cury = with_fullx e (e_fullx e + e_slope e).
+Proof.
+  intros H. unfold step. destruct (e_shift e =? 0) eqn:Es; [reflexivity|].
+  destruct H as [H|H]; [lia|]. replace (dot16_to_dot2 (e_nexty e) <=? cury) with false by lia. reflexivity.
+Qed.
+
+Lemma with_fullx_twice e a b : with_fullx (with_fullx e a) b = with_fullx e b.
+Proof. reflexivity. Qed.
+
+Lemma prestep_jump k : forall m e cury,
+  e_shift e = 0 \/ cury + Z.of_nat k <= dot16_to_dot2 (e_nexty e) -> cury + Z.of_nat k <= 0 ->
+  prestep (k + m) e cury = prestep m (with_fullx e (e_fullx e + Z.of_nat k * e_slope e)) (cury + Z.of_nat k).
+Proof.
+  induction k as [|k IH]; intros m e cury Hs H0.
+  - cbn [Nat.add]. replace (e_fullx e + Z.of_nat 0 * e_slope e) with (e_fullx e) by lia.
+    replace (cury + Z.of_nat 0) with cury by lia. destruct e; reflexivity.
+  - cbn [Nat.add prestep]. replace (cury <? 0) with true by lia.
+    rewrite step_noswitch by (destruct Hs; [left; assumption|right; lia]).
+    rewrite (IH m (with_fullx e (e_fullx e + e_slope e)) (cury + 1)).
+    + rewrite with_fullx_twice. cbn [with_fullx e_fullx e_slope].
+      replace (e_fullx e + e_slope e + Z.of_nat k * e_slope e) with (e_fullx e + Z.of_nat (S k) * e_slope e) by lia.
+      replace (cury + 1 + Z.of_nat k) with (cury + Z.of_nat (S k)) by lia. reflexivity.
+    + cbn [with_fullx e_shift e_nexty]. destruct Hs; [left; assumption|right; lia].
+    + lia.
+Qed.
+
+Theorem prestep_fast_is_prestep fuel : forall e cury, cury <= 0 ->
+  prestep_fast fuel e cury = prestep (Z.to_nat (- cury)) e cury.
+Proof.
+  induction fuel as [|k IH]; intros e cury Hle; cbn [prestep_fast]; [reflexivity|].
+  destruct (cury <? 0) eqn:E.
+  - destruct (dot16_to_dot2 (e_nexty e) <=? cury) eqn:En.
+    + rewrite IH by lia. replace (Z.to_nat (- cury)) with (S (Z.to_nat (- (cury + 1)))) by lia.
+      cbn [prestep]. rewrite E. reflexivity.
+    + set (n := Z.min (- cury) (dot16_to_dot2 (e_nexty e) - cury)).
+      rewrite IH by (unfold n; lia).
+      replace (Z.to_nat (- cury)) with (Z.to_nat n + Z.to_nat (- (cury + n)))%nat by (unfold n; lia).
+      rewrite (prestep_jump (Z.to_nat n) _ e cury); [|right; unfold n; lia|unfold n; lia].
+      rewrite Z2Nat.id by (unfold n; lia). reflexivity.
+  - replace (Z.to_nat (- cury)) with 0%nat by lia. reflexivity.
+Qed.
+
+(* what add_edge does with an edge that starts above the surface (closed form for a straight edge, row jumping for a
+   curve edge) is the crate's loop `while cury < 0 { e.step(cury); cury += 1 }` *)
+Theorem edge_above_surface_rowwise (curve : bool) e y1 : y1 < 0 -> (curve = false -> e_shift e = 0) ->
+  (if curve then prestep_fast 200 e y1 else (with_fullx e (e_fullx e + (- y1) * e_slope e), 0))
+  = prestep (Z.to_nat (- y1)) e y1.
+Proof.
+  intros Hy Hs. destruct curve.
+  - apply prestep_fast_is_prestep. lia.
+  - replace (Z.to_nat (- y1)) with (Z.to_nat (- y1) + 0)%nat by lia.
+    rewrite (prestep_jump (Z.to_nat (- y1)) 0 e y1); [|left; now apply Hs|lia].
+    rewrite Z2Nat.id by lia. cbn [prestep]. replace (y1 + - y1) with 0 by lia. reflexivity.
+Qed.
